@@ -1,4 +1,5 @@
 import SaModel.Lemmas.C17Range
+import SaModel.Lemmas.C17TouchTyped
 /-
 C17 — structurally inconsistent array views give an error, not a panic or foreign data.
 Property theorems only.  Model: SaModel/Read/Reader.lean (readers after the `fix:` commits = `Fixes.all`);
@@ -12,7 +13,7 @@ all statements are over ARBITRARY `Arr` (no well-formedness hypothesis).
 * negations for the pinned readers with concrete witnesses (`decide`).
 -/
 namespace SaModel.Props.C17
-open SaModel SaModel.Read
+open SaModel SaModel.Read SaModel.Spec
 
 /-! ### construction never panics -/
 
@@ -534,6 +535,113 @@ sub-range of the buffer its view designates, and (structure of `readAnySome`) ev
 through `anyAt`, i.e. again below that child's length -/
 theorem read_in_range {a : Arr} {idx : Nat} {d : DVal} (h : readAny Fixes.all a idx = .ok d) : idx < vlen a :=
   anyAt_ok_lt_len h
+
+/-! ### every slot a successful read visits lies below the length of its array (`touchOK`)
+
+`Spec.touchOK t a i` (SaModel/Spec/TouchRange.lean) is the run-time predicate of the `corrupt` suite: rows below the
+declared length, list / map / fixed-size elements and union / dictionary references below the child's length, for
+exactly the slots a read of target `t` has to visit.  The theorems below say that a successful read of the reader
+model implies it — for EVERY target and EVERY array (no well-formedness), given only `unionIdsOK a`: the union
+nodes of `a` list their children under the type ids 0, 1, 2, … .  That is what `ArrayDeserializer::new` checks and
+the reads do not re-check (`EnumDeserializer` indexes its variants by type id, the Arrow reading looks the id up),
+see `new_ok_unionIdsOK` and the counterexample `touch_needs_consecutive_ids`. -/
+
+mutual
+theorem touchP_all : ∀ (t : Target), TouchP t
+  | .any => touchP_any
+  | .ignored => touchP_ignored
+  | .unit => touchP_unit
+  | .unitStruct => touchP_unitStruct
+  | .bool => touchP_bool
+  | .int ty => touchP_int ty
+  | .f32 => touchP_f32
+  | .f64 => touchP_f64
+  | .char => touchP_char
+  | .string => touchP_string
+  | .str => touchP_str
+  | .bytes => touchP_bytes
+  | .byteBuf => touchP_byteBuf
+  | .option t => touchP_option (touchP_all t)
+  | .newtype t => touchP_newtype (touchP_all t)
+  | .seq t => touchP_seq (touchP_all t)
+  | .tuple ts => touchP_tuple (touchP_targets ts)
+  | .tupleStruct ts => touchP_tupleStruct (touchP_targets ts)
+  | .map k v => touchP_map (touchP_all k) (touchP_all v)
+  | .struct tfs => touchP_struct (touchP_fields tfs)
+  | .enum _ vs => touchP_enum (touchP_variants vs)
+theorem touchP_targets : ∀ (ts : Targets), AllT TouchP ts
+  | .nil => by unfold AllT; trivial
+  | .cons t r => by unfold AllT; exact ⟨touchP_all t, touchP_targets r⟩
+theorem touchP_fields : ∀ (tfs : TFields), AllF TouchP tfs
+  | .nil => by unfold AllF; trivial
+  | .cons _ t r => by unfold AllF; exact ⟨touchP_all t, touchP_fields r⟩
+theorem touchP_variants : ∀ (vs : TVariants), AllV KTouch vs
+  | .nil => by unfold AllV; trivial
+  | .cons _ k r => by unfold AllV; exact ⟨ktouch_all k, touchP_variants r⟩
+theorem ktouch_all : ∀ (k : VKind), KTouch k
+  | .unit => ktouch_unit
+  | .newtype t => ktouch_newtype (touchP_all t)
+  | .tuple ts => ktouch_tuple (touchP_targets ts)
+  | .struct tfs => ktouch_struct (touchP_fields tfs)
+end
+
+/-- `read_in_range` for the TYPED reads: whatever the target and whatever the (arbitrary, possibly inconsistent)
+view, a successful read visited only slots below the length of the array they belong to — the row itself, every
+list / map / fixed-size-list element, every union child slot, every dictionary key — all the way down -/
+theorem readAs_touch_in_range {t : Target} {a : Arr} {i : Nat} {d : DVal} (hids : unionIdsOK a = true)
+    (h : readAs Fixes.all t a i = .ok d) : touchOK t a i = true :=
+  touchP_all t a i d hids h
+
+/-- the same for `deserialize_any` -/
+theorem readAny_touch_in_range {a : Arr} {i : Nat} {d : DVal} (hids : unionIdsOK a = true)
+    (h : readAny Fixes.all a i = .ok d) : touchOK .any a i = true :=
+  readAny_touch hids rfl h
+
+/-- in the form the readers are used: the reader tree was built (`ArrayDeserializer::new` succeeded) -/
+theorem readAs_touch_in_range_of_new {t : Target} {a : Arr} {i : Nat} {d : DVal} (hnew : new Fixes.all a = .ok ())
+    (h : readAs Fixes.all t a i = .ok d) : touchOK t a i = true :=
+  readAs_touch_in_range (new_ok_unionIdsOK a hnew) h
+
+/-- the record level, exactly what the `corrupt` suite evaluates: `touchOK r.ty (record fm col) r.idx` -/
+theorem readRecord_touch_in_range {t : Target} {fm : FieldMeta} {col : Arr} {idx : Nat} {d : DVal}
+    (hnew : new Fixes.all (record fm col) = .ok ()) (h : readRecord Fixes.all t fm col idx = some (.ok d)) :
+    touchOK t (record fm col) idx = true := by
+  unfold readRecord at h
+  split at h
+  · cases h
+  · simp only [Option.some.injEq] at h
+    exact readAs_touch_in_range_of_new hnew h
+
+/-- every successful typed read is below the length of the array (the typed form of `read_in_range`) -/
+theorem readAs_ok_lt_len {t : Target} {a : Arr} {i : Nat} {d : DVal} (hids : unionIdsOK a = true)
+    (h : readAs Fixes.all t a i = .ok d) : i < Spec.lenOf a :=
+  touchOK_lt (readAs_touch_in_range hids h)
+
+/-- non-vacuity: a list of structs with a dictionary and a union column, read into `Vec<S>` with an `Option` field,
+a borrowed string and an enum; the read succeeds, the hypotheses hold -/
+example :
+    let a : Arr := .list false none [0, 1, 2] ⟨"element", false, []⟩
+      (.struct 2 none
+        (.cons ⟨"x", true, []⟩ (.prim .int32 (some ⟨[1], 0⟩) [7, 8])
+        (.cons ⟨"s", false, []⟩ (.dictionary (.prim .int8 none [0, 0]) (.bytes .utf8 none [0, 1] [65]))
+        (.cons ⟨"u", false, []⟩ (.union [0, 1] (some [0, 0])
+          (.cons 0 ⟨"A", false, []⟩ (.null 1) (.cons 1 ⟨"B", false, []⟩ (.prim .int8 none [5]) .nil))) .nil))))
+    let t : Target := .seq (.struct (.cons "x" (.option (.int .i32)) (.cons "s" .str
+      (.cons "u" (.enum false (.cons "A" .unit (.cons "B" (.newtype (.int .i8)) .nil))) .nil))))
+    new Fixes.all a = .ok () ∧ (readAs Fixes.all t a 1).isOk = true ∧ unionIdsOK a = true ∧ touchOK t a 1 = true := by
+  decide
+
+/-- the predicate is not trivially true: an element range that leaves the child, a dictionary key beyond the values -/
+example : touchOK (.seq (.int .i32)) (.list false none [0, 3] ⟨"element", false, []⟩ (.prim .int32 none [1, 2])) 0 = false ∧
+    touchOK .str (.dictionary (.prim .int8 none [1]) (.bytes .utf8 none [0, 1] [65])) 0 = false ∧
+    touchOK .any (.fixedSizeList 2 none 2 ⟨"element", false, []⟩ (.null 3)) 1 = false := by decide
+
+/-- the hypothesis `unionIdsOK` cannot be dropped: on a union whose children are NOT listed under the ids 0, 1, …
+the reader model (child at position `type id`) and the Arrow reading (child whose id is `type id`) part ways; such
+a view never reaches the readers, `ArrayDeserializer::new` rejects it -/
+theorem touch_needs_consecutive_ids :
+    let a : Arr := .union [0] (some [0]) (.cons 5 ⟨"a", false, []⟩ (.null 1) (.cons 0 ⟨"b", false, []⟩ (.null 0) .nil))
+    (readAny Fixes.all a 0).isOk = true ∧ touchOK .any a 0 = false ∧ (new Fixes.all a).isErr = true := by decide
 
 /-! ### the pinned readers do panic / do return foreign elements: concrete witnesses -/
 
